@@ -116,8 +116,9 @@ def handle (case obs : List String) : String × String :=
   | "resp" :: _ => (String.intercalate " " obs, handleResp case obs)
   | "req" :: _ => (String.intercalate " " obs, handleReq case obs)
   | _ =>
-  match model case, parseEncCase case with
-  | some m, some c =>
+  match parseEncCase case with
+  | some c =>
+    let m := encColumn c obs
     let bytes := (obsData obs).flatten
     let (frs, left) := Spec.Framing.split bytes
     let eff := c.cfg.comp
@@ -137,5 +138,5 @@ def handle (case obs : List String) : String × String :=
                  ("one-trailers-block-nothing-after", trailersOk),
                  ("is-end-stream-only-after-the-trailers-or-last-data", endStreamOk c.cfg.server obs),
                  ("size-hint-is-sound", sizeHintOk obs)])
-  | _, _ => bad
+  | none => bad
 end DriverC03
